@@ -44,3 +44,14 @@ Print Assumptions C07_key_stable_pickle.
 Theorem C07_unguarded_refuted : exists a b, a <> b /\ ser a = ser b.
 Proof. exact ser_unguarded_refuted. Qed.
 Print Assumptions C07_unguarded_refuted.
+
+(* Every key of a module-level task type is accepted by LocalStorage: a key whose characters are none of the
+   forbidden ones (prefix, identifier class name, "__", hex digest) and that resolves to a direct child of the
+   storage directory passes validation. *)
+Require Import LT.Model.Paths LT.Proofs.PathsProofs.
+Theorem C07_key_accepted : forall rs rroot root key r c,
+  key <> [] -> (forall ch, In ch key -> ~ In ch (g_chars storage_guards_src)) ->
+  rs root key = Ok (r ++ [c]) -> rroot root = Ok r ->
+  key_to_path storage_guards_src rs rroot root key = Ok (r ++ [c]).
+Proof. exact (clean_key_accepted storage_guards_src). Qed.
+Print Assumptions C07_key_accepted.
